@@ -143,6 +143,15 @@ CHECKS = {
             "functions as list / ndarray / set / Series ('does not raise' is a clause); sampled larger inputs are evaluated by TLC.",
             "Trusted: TLC, Rational.tla. jaccard_index judged with missing values in Series only and non-empty unions (documented behaviour).",
             "TLA+ model checking (TLC) + spec-to-code replay"),
+    "C17": ("DESIGN.md 4/C17",
+            "Resample.tla: subsample as a machine drawing individual items without replacement (Refuse, Begin, Draw(i), Recount), downsample "
+            "as a nondeterministic choice of positions; TLC checks SubsampleOK, NeverOverdraw, DownsampleOK for all small count vectors and n "
+            "and rejects the with-replacement mutant; it also yields each outcome's exact weight prod C(c_i, k_i). Every (counts, n) is executed "
+            "under several seeds (each outcome must be a terminal state TLC enumerated), uniformity is judged by chi-square against the "
+            "model's weights; subsample / downsample / powerlaw_sample sessions and the inclusion rule of powerlaw_mle_alpha are validated by "
+            "TraceResample.tla; ln-based closed forms and the optimiser are checked numerically on the spec-selected multiset.",
+            "Trusted: TLC. Statistical judgement (false alarm 1e-9), logarithms and the bounded optimiser are harness side (DESIGN.md section 6).",
+            "TLA+ model checking (TLC) + spec-to-code replay of nondeterministic outcomes + trace validation"),
 }
 
 NOT_YET = {
